@@ -570,5 +570,6 @@ func run(c *Ctx) error {
 	c.Stats.Rule = "a case is one package (p2p/security or p2p/trust), a start clock (realistic unix time, near 0, negative, near 2^40) and a history of 1..~60 events Increase(p,t) / Int() / Reset(), each after a time step drawn from boundary steps (0, 1, 59, 60, 61, 62..67 around the precomputed table end, 1799, 1800, 1801, multiples of 60), random steps and negative steps; amounts are 0, 1, 2, the node's real range 1..120, powers of two (exact halving to 1.0), and values at 2^31 and 2^32-1 (uint32 overflow); distinct = distinct (package, history); non-trivial = at least two results and some Int() observed a transient part >= 1 decayed over dt > 0; every result is checked by the oracle (formula within 1 against a math.Exp2 reference, exact forgetting after 1800 s, Int() equal to the value just returned by Increase(p,t>0), monotonicity and non-negativity under a no-overflow premise computed from the inputs) and must fall into the Coq interval model's enclosure (first index outside = mismatch)"
 	header := "From Coq Require Import ZArith List.\nFrom C35 Require Import Model Run.\nImport ListNotations.\nOpen Scope Z_scope.\n"
 	c.Cases.Shard = c.N(400, 800)
+	peersStage(c)
 	return c.Cases.Write(c.Out, header, "Z", "Z.eqb")
 }
